@@ -21,7 +21,11 @@ META = {
                    "thresholds with an escapable character at every offset near the cuts, unicode, trailing "
                    "punctuation) are linkified by the real function under all combinations of shorten x "
                    "require_protocol x permitted_protocols x extra_params; an independent scanner removes the inserted "
-                   "anchors and the remainder, every label, every href and every entity is checked."),
+                   "anchors and the remainder, every label, every href and every entity is checked. Call histories (2-9, "
+                   "occasionally 101-130 calls in one process) pass the same list object edited in place between calls, a new "
+                   "short-lived list/set/tuple per call, or many containers alive at once, the protocols changing from call to "
+                   "call while the texts keep offering the withdrawn ones; each call is judged against what its container holds "
+                   "at that moment."),
     "level_note": ("Trusts the 40-line anchor scanner and the 5-entry escape table; apostrophe may be written &#x27; or "
                    "&#39;; scheme comparison is case-insensitive (an upper-case variant of a permitted scheme would not "
                    "be reported)."),
@@ -30,13 +34,16 @@ META = {
 }
 RULE = ("a case is (text, option-set index); texts are 1-6 fragments drawn from URL-like and plain pools, plus a systematic "
         "family host/path with one escapable character at each offset 0..40 of the URL; non-trivial = the output contains "
-        "at least one inserted anchor or the text contains a scheme/www. candidate that had to be refused; distinct by "
-        "(text, options)")
+        "at least one inserted anchor or the text contains a scheme/www. candidate that had to be refused; a history "
+        "(container relation, [(container type, protocols, text, options)...]) is non-trivial when some call's text offers "
+        "a protocol withdrawn since the previous call; distinct by (text, options) / the whole history")
 FLOORS = {"quick": 8000, "thorough": 200000}
 ASSUMPTIONS = ["the anchor scanner and 5-entry escaper are correct",
                "extra_params values used by the generator contain no '<' or '>'",
                "catastrophic regex run time is only observed through the shard watchdog"]
-REQUIRED_COUNTERS = ["oracle_evals", "anchors_checked", "labels_shortened", "refused_candidates"]
+REQUIRED_COUNTERS = ["oracle_evals", "anchors_checked", "labels_shortened", "refused_candidates", "history_cases",
+                     "history_mode_mutated", "history_mode_fresh", "history_mode_kept",
+                     "history_calls_with_withdrawn_protocol_in_text"]
 
 PERMITTED = [None, ["http", "https", "ftp"], ["http", "javascript"], set(), ["https"], {"http", "https", "mailto"}]
 EXTRA = ["", 'rel="nofollow" class="x"', "cb"]
@@ -136,6 +143,50 @@ def gen_text(rng):
     return "".join(parts)
 
 
+PROTO_POOL = ["http", "https", "ftp", "javascript", "mailto", "file", "data", "x-y", "a1"]
+
+
+def gen_history(rng):
+    """-> ("hist", mode, [(container type, protocols, text, shorten, require_protocol, extra index, as_bytes)...]).
+    Consecutive containers mostly differ by a protocol withdrawn or added, and the text of every call contains links
+    with the protocols of the previous call (so a withdrawn protocol is on offer) among generated fragments."""
+    mode = rng.choice(["mutated", "mutated", "fresh", "fresh", "fresh", "kept"])
+    n = rng.choice([2, 3, 3, 4, 6, 9]) if rng.random() < 0.97 else rng.randint(101, 130)
+    ctype = "list" if mode == "mutated" else rng.choice(["list", "list", "set", "tuple"])
+    cur = rng.sample(PROTO_POOL, rng.choice([1, 2, 3, 3, 4]))
+    steps = []
+    prev = None
+    for _ in range(n):
+        if prev is not None:
+            cur = list(prev)
+            r = rng.random()
+            if r < 0.55 and cur:
+                cur.remove(rng.choice(cur))
+                if rng.random() < 0.3:
+                    cur.append(rng.choice([x for x in PROTO_POOL if x not in prev] or ["http"]))
+            elif r < 0.75:
+                cur.append(rng.choice([x for x in PROTO_POOL if x not in cur] or ["http"]))
+            elif r < 0.85:
+                cur = rng.sample(PROTO_POOL, rng.choice([0, 1, 2, 3]))
+            if mode != "mutated" and rng.random() < 0.3:
+                ctype = rng.choice(["list", "set", "tuple"])
+        cur = list(dict.fromkeys(cur))
+        offer = list(dict.fromkeys((prev or []) + cur + [rng.choice(PROTO_POOL)]))
+        rng.shuffle(offer)
+        frags = []
+        for sch in offer[:rng.choice([2, 3, 5])]:
+            frags.append(sch + rng.choice(["://", "://", ":/", ":"]) + rng.choice(HOSTS[:8]) +
+                         rng.choice(["", "/", "/" + _path(rng, rng.choice([3, 12, 33]))]))
+        if rng.random() < 0.5:
+            frags.append(gen_text(rng))
+        rng.shuffle(frags)
+        text = rng.choice([" ", "\n", " and ", ", "]).join(frags)
+        steps.append((ctype, tuple(cur), text, rng.random() < 0.4, rng.random() < 0.4, rng.randrange(len(EXTRA)),
+                      rng.random() < 0.1))
+        prev = cur
+    return ("hist", mode, steps)
+
+
 def shards(tier, seed):
     k = 16
     n = 48000 if tier == "quick" else 2400000
@@ -147,6 +198,11 @@ def gen_cases(spec):
     i = 0
     n = spec["n"]
     while i < n:
+        if rng.random() < 0.04:
+            h = gen_history(rng)
+            yield h
+            i += len(h[2])
+            continue
         text = gen_text(rng)
         as_bytes = rng.random() < 0.1
         # each text under 3 option sets: one fully random, one with shorten, one without
@@ -162,6 +218,14 @@ def directed_cases():
     yield ("http://abcdefghijklmnopqr\"stuvwxyzabcdefghijklmnopq", OPTS.index((True, False, 0, 0)), False)
     yield ("www.example.com/abc&def&ghi&jkl&mno&pqr&stu&vwx", OPTS.index((True, False, 0, 1)), False)
     yield ("javascript://alert(1) http://ok.com", OPTS.index((False, False, 0, 0)), False)
+    # call histories: what is permitted is what the container holds at the time of each call
+    t = "see ftp://files.example.com/a and javascript://alert(1) or http://example.com/"
+    for mode, ct in (("mutated", "list"), ("fresh", "list"), ("fresh", "set"), ("fresh", "tuple"), ("kept", "list")):
+        yield ("hist", mode, [(ct, ("http", "ftp", "javascript"), t, False, False, 0, False),
+                              (ct, ("http",), t, False, False, 0, False),
+                              (ct, ("http", "javascript"), t, True, False, 1, False),
+                              (ct, (), t, False, True, 2, False),
+                              (ct, ("ftp",), t, False, False, 0, True)])
 
 
 # ---------------------------------------------------------------------------------------------
@@ -226,12 +290,96 @@ def scan(out):
 
 
 def run_case(case, ctx):
+    if case[0] == "hist":
+        return run_history(case, ctx)
     text, oi, as_bytes = case
     sh, rp, pi, ei = OPTS[oi]
+    r = judge_call(ctx, text, sh, rp, PERMITTED[pi], ei, as_bytes)
+    if r is not None:
+        nanch, refused = r
+        ctx.mark((text, oi, as_bytes), bool(nanch or refused))
+
+
+class _Held:
+    """ctx view that holds violations back until the caller has classified them."""
+
+    def __init__(self, ctx, silent=False):
+        self._ctx, self._silent = ctx, silent
+        self.pending = []
+
+    def count(self, key, n=1):
+        if not self._silent:
+            self._ctx.count(key, n)
+
+    def sample(self, obj, limit=4):
+        if not self._silent:
+            self._ctx.sample(obj, limit)
+
+    def violation(self, mechanism, what, witness=None):
+        self.pending.append((mechanism, what, witness))
+
+
+def run_history(case, ctx):
+    """Several calls in one process whose permitted_protocols containers are related: one object edited in place
+    between calls, a new short-lived object for every call, or many objects alive at once.  Every call is judged
+    by the same oracle against the protocols its own container holds *at the time of that call*.
+
+    A failing call is repeated with a container object that did not exist before (and of another type): if that
+    call is answered correctly the failure is attributed to the call history (mechanism prefix `call-history/`)."""
+    _, mode, steps = case
+    ctx.count("history_cases")
+    ctx.count("history_mode_" + mode)
+    shared = []                # the one object of mode "mutated"
+    alive = []                 # mode "kept": every container stays referenced
+    prev = None
+    nontriv = False
+    for idx, (ctype, contents, text, sh, rp, ei, as_bytes) in enumerate(steps):
+        make = {"list": list, "set": set, "tuple": tuple}[ctype]
+        if mode == "mutated":
+            # same list object throughout, edited in place
+            if prev is not None:
+                for x in [x for x in shared if x not in contents]:
+                    shared.remove(x)
+            for x in contents:
+                if x not in shared:
+                    shared.append(x)
+            obj = shared
+        else:
+            obj = make(contents)
+            if mode == "kept":
+                alive.append(obj)
+        held = _Held(ctx)
+        ctx.count("history_calls")
+        if prev is not None and set(prev) - set(contents):
+            ctx.count("history_calls_after_protocol_withdrawn")
+            withdrawn = set(prev) - set(contents)
+            if any((w + ":") in text for w in withdrawn):
+                ctx.count("history_calls_with_withdrawn_protocol_in_text")
+                nontriv = True
+        judge_call(held, text, sh, rp, obj, ei, as_bytes, expect_permitted=list(contents))
+        if held.pending:
+            ctl = _Held(ctx, silent=True)
+            other = frozenset(contents) if ctype != "set" else tuple(contents)
+            alive.append(other)
+            judge_call(ctl, text, sh, rp, other, ei, as_bytes, expect_permitted=list(contents))
+            prefix = "" if ctl.pending else "call-history/%s/" % mode
+            for mech, what, wit in held.pending:
+                ctx.violation(prefix + mech, what, dict(wit or {}, history_mode=mode, step=idx,
+                                                        earlier_calls=[(c[0], list(c[1])) for c in steps[:idx]]))
+            return
+        del obj
+        prev = contents
+    ctx.mark(("hist", mode, repr(steps)), nontriv)
+
+
+def judge_call(ctx, text, sh, rp, permitted_arg, ei, as_bytes, expect_permitted=None):
+    """One linkify call judged by the structural oracle.  -> (anchors, refused), or None when a violation ended the
+    examination early."""
     kw = {"shorten": sh, "require_protocol": rp}
-    if PERMITTED[pi] is not None:
-        kw["permitted_protocols"] = PERMITTED[pi]
-    permitted = PERMITTED[pi] if PERMITTED[pi] is not None else ["http", "https"]
+    if permitted_arg is not None:
+        kw["permitted_protocols"] = permitted_arg
+    permitted = expect_permitted if expect_permitted is not None else (
+        permitted_arg if permitted_arg is not None else ["http", "https"])
     extra = EXTRA[ei]
     if extra == "cb":
         kw["extra_params"] = _cb
@@ -344,6 +492,6 @@ def run_case(case, ctx):
     if nanch == 0 and ("://" in text or "www." in text):
         refused = 1
         ctx.count("refused_candidates")
-    ctx.mark((text, oi, as_bytes), bool(nanch or refused))
     if nanch and ok and sh:
         ctx.sample({"text": text, "kw": repr(kw), "out": out}, limit=3)
+    return (nanch, refused)
